@@ -89,3 +89,29 @@ Example c17_bai_example :
   let i := mkbai [mkbref [(4681, [(10, 20)]); (0, [])] (Some (mkmeta 10 20 1 0)) [10; 10]] (Some 3) in
   read_bai (w_bai i) = Some i.
 Proof. vm_compute. reflexivity. Qed.
+
+(* ---- CSI: writing stores, for each bin, the minimum loffset over the bin and the chain of its
+   present ancestors, so the index that is read back is NOT equal to the one written; but every
+   query is answered with the same chunks (the "or at least answers every query with the same
+   chunks" clause), for every index the Indexer builds, at every geometry below 2^64. ---- *)
+From NV Require Import Index.Indexer Index.CsiLoffset Index.CsiLoffsetProofs.
+
+Theorem c17_csi_roundtrip_queries :
+  forall ms d k file qs qe,
+    ms + 3 * N.of_nat d < 64 -> spans_ok ms d file ->
+    let ix := build_ref ms d k file in
+    query Binned ms d (mkref (bins ix) (lin ix) (reread_loffs (bins ix) (loffs ix))) qs qe
+    = query Binned ms d ix qs qe.
+Proof. exact csi_roundtrip_queries. Qed.
+Print Assumptions c17_csi_roundtrip_queries.
+
+(* the same for any loffset map, not only Indexer-built ones: distinct in-scheme bin ids, the
+   same ids in the bin map *)
+Theorem c17_csi_reread_min_offset :
+  forall ms d bm lm s,
+    ms + 3 * N.of_nat d < 64 -> NoDup (map fst lm) ->
+    (forall id, In id (map fst bm) <-> In id (map fst lm)) ->
+    (forall id, In id (map fst lm) -> in_scheme d id) ->
+    binned_min_offset ms d (reread_loffs bm lm) s = binned_min_offset ms d lm s.
+Proof. exact csi_reread_min_offset. Qed.
+Print Assumptions c17_csi_reread_min_offset.
